@@ -374,6 +374,29 @@ struct StoreSession : public vw::Session {
       return "ctx=" + std::to_string(pd.context.size()) + " vtbs=" + std::to_string(pd.vtbs.size()) + " atvs=" +
              std::to_string(pd.atvs.size()) + " final " + before + " -> " + altFinalId(I) + " tip " + tipb + " -> " + I.tip();
     }
+    if (c == "dangling") {
+      // release-build oracle for known finding dangling-endorsement-backpointers: pure pointer comparison, nothing
+      // is dereferenced. Every endorsedBy / block-of-proof back pointer of a retained block must point to an
+      // endorsement that is still owned by the containing-endorsement map of some block of the protected tree.
+      std::set<const void*> liveAlt, liveVbk;
+      for (auto* i : I.tree.getAllBlocks())
+        for (auto& kv : i->getContainingEndorsements()) liveAlt.insert(kv.second.get());
+      for (auto* i : I.tree.vbk().getAllBlocks())
+        for (auto& kv : i->getContainingEndorsements()) liveVbk.insert(kv.second.get());
+      int altby = 0, vbkbop = 0, vbkby = 0, btcbop = 0;
+      for (auto* i : I.tree.getAllBlocks())
+        for (auto* e : i->getEndorsedBy()) if (!liveAlt.count(e)) altby++;
+      for (auto* i : I.tree.vbk().getAllBlocks()) {
+        for (auto* e : i->getBlockOfProofEndorsement()) if (!liveAlt.count(e)) vbkbop++;
+        for (auto* e : i->getEndorsedBy()) if (!liveVbk.count(e)) vbkby++;
+      }
+      for (auto* i : I.tree.btc().getAllBlocks())
+        for (auto* e : i->getBlockOfProofEndorsement()) if (!liveVbk.count(e)) btcbop++;
+      std::string r = "altby=" + std::to_string(altby) + " vbkbop=" + std::to_string(vbkbop) + " vbkby=" +
+                      std::to_string(vbkby) + " btcbop=" + std::to_string(btcbop);
+      if (altby + vbkbop + vbkby + btcbop > 0) vh::oracle_fail(curId, "dangling-endorsement-backpointers " + r);
+      return r;
+    }
     if (c == "pair") {
       std::string fname;
       for (auto& kv : inst) if (kv.second.get() == &I) fname = kv.first;
